@@ -38,6 +38,11 @@ def impl_task(case, learner):
         if case.get('init_cells') is not None:
             t['init'] = case['init_cells']
             t['init_form'] = 'dict'
+        if case.get('init_form_dict') == 'da' and case.get('init_lw') is not None:
+            # optional: dict_ndl is handed the same initial weights as a DataArray (init_cells must list
+            # every cell of it, zeros included: that is what the model starts from)
+            t['init'] = case['init_lw']
+            t['init_form'] = 'da'
     else:
         t['learner'] = 'ndl'
         t['method'] = 'threading' if learner == 'ndl_threading' else 'openmp'
@@ -206,13 +211,21 @@ def python_snippet(case, learner):
                                                 {'error': None, 'dedup': True, 'keep': False}[case['policy']]))
         lines.append("print({o: dict(r) for o, r in w.items()})")
     else:
+        kw_init = ''
+        if case.get('init_lw') is not None:
+            lw = case['init_lw']
+            lines += ["import numpy as np, xarray as xr",
+                      "w0 = xr.DataArray(np.array([float(F(v)) for v in %r]).reshape((%d, %d)), [('outcomes', %r), ('cues', %r)])"
+                      "   # memory layout in the run: %s (harness/impl.py make_da)"
+                      % (lw['vals'], len(lw['outcomes']), len(lw['cues']), lw['outcomes'], lw['cues'], lw.get('layout', 'c'))]
+            kw_init = 'weights=w0, '
         lines += ["freq = %r  # third column of the event file (None: no such column)" % (case.get('freq'),),
                   "d = tempfile.mkdtemp(); p = os.path.join(d, 'events.tab.gz')",
                   "with gzip.open(p, 'wt', encoding='utf-8') as f:",
                   "    f.write('cues\\toutcomes\\n')",
                   "    for k, (c, o) in enumerate(events): f.write('_'.join(c) + '\\t' + '_'.join(o) + ('\\t%d' % freq[k] if freq else '') + '\\n')",
-                  "w = ndl.ndl(p, float(F(%r)), (float(F(%r)), float(F(%r))), float(F(%r)), method=%r, n_jobs=%d, "
-                  "n_outcomes_per_job=%d, events_per_temporary_file=%d, remove_duplicates=%r)"
+                  ("w = ndl.ndl(p, float(F(%r)), (float(F(%r)), float(F(%r))), float(F(%r)), " + kw_init + "method=%r, n_jobs=%d, "
+                   "n_outcomes_per_job=%d, events_per_temporary_file=%d, remove_duplicates=%r)")
                   % (case['alpha'], case['beta1'], case['beta2'], case['lambda'],
                      'threading' if learner == 'ndl_threading' else 'openmp', case.get('n_jobs', 2),
                      case.get('per_job', 10), case.get('per_file', 10000000),
